@@ -155,6 +155,22 @@ CLAIMED['C19'] = ('5/C19',
     'no real OS processes / pickling / multiprocessing manager; each monitor call atomic; '
     'zero-size objects excluded (allocate(…, 0) fails on Linux)')
 
+CLAIMED['C20'] = ('5/C20',
+    'TLC model checking of CrtGlue.tla (safety + liveness) and TLC trace validation '
+    '(CrtGlue_Trace.tla) of the real CRTTransferManager run against a stub CRT client under '
+    'the deterministic scheduler',
+    'CrtGlue.tla models permits, request construction (and its failure), request outcomes in '
+    'any completion order, the callback composition before->subscribers->after and '
+    'shutdown; TLC checks one-permit-per-transfer on every path, subscribers-before-complete, '
+    'rename-on-success/remove-on-error, shutdown-after-all-callbacks, permits restored at '
+    'quiescence and (under fairness) completion. The real CRTTransferManager runs with a stub '
+    'awscrt and a stub client (success, error, cancel, construction failure at three sites, '
+    'rename failure, more transfers than permits, both completion orders of future/on_done); '
+    'every event must be the matching spec action with the logged semaphore value and the '
+    'C20 clauses are invariants of the trace spec.',
+    'real awscrt not installed (stub package with only the imported names); permit capacity '
+    'substituted via the threading shim (128 unchanged in two families)')
+
 REASON_TODO = 'check not built yet (build in progress)'
 
 
